@@ -1,0 +1,160 @@
+//go:build verif
+
+// C19: exported state (state.go). Comment-only; read by /verif/vc.
+package dtls
+
+// State <-> serializedState are field-by-field copies. Every field has its own clause so that a
+// dropped or swapped field fails exactly one obligation. encoding/gob between serialize and
+// deserialize is assumed to be the identity on serializedState (trusted, props/C19.json).
+//
+// A Random is { gmt_unix_time(4) ; random_bytes[28] }: the 28 bytes are stated directly; time.Time
+// is opaque to the engine, the 4 time bytes are stated through the Time.Unix / time.Unix events
+// (only the last call of a name is observable: that is the remote random).
+
+//@ define V13(v) (v.Major == 254 && v.Minor == 252)
+//@ define V12(v) (v.Major == 254 && v.Minor == 253)
+//@ define VZERO(v) (v.Major == 0 && v.Minor == 0)
+
+//@ func State.serialize
+//@ watch Time.Unix
+//@ ensures unset-suite: s.CipherSuiteID == 0 ==> result0 == nil && result1 != nil
+//@ ensures dtls13-refused: s.CipherSuiteID != 0 && V13(s.version) ==> result0 == nil && sameRef(result1, ErrStateSerializationUnsupported)
+//@ ensures otherwise-ok: s.CipherSuiteID != 0 && !V13(s.version) ==> result0 != nil && result1 == nil
+//@ ensures f-Version: result1 == nil && !VZERO(s.version) ==> result0.Version.Major == s.version.Major && result0.Version.Minor == s.version.Minor
+//@ ensures f-Version-default: result1 == nil && VZERO(s.version) ==> V12(result0.Version)
+//@ ensures f-Version-never13: result1 == nil ==> !V13(result0.Version)
+//@ ensures f-LocalEpoch: result1 == nil ==> result0.LocalEpoch == s.localEpoch
+//@ ensures f-RemoteEpoch: result1 == nil ==> result0.RemoteEpoch == s.remoteEpoch
+//@ ensures f-LocalRandom: result1 == nil ==> forall(0, 28, func(i int) bool { return result0.LocalRandom[4+i] == s.localRandom.RandomBytes[i] })
+//@ ensures f-RemoteRandom: result1 == nil ==> forall(0, 28, func(i int) bool { return result0.RemoteRandom[4+i] == s.remoteRandom.RandomBytes[i] })
+//@ ensures f-RemoteRandom-time: result1 == nil ==> ncalls("Time.Unix") == 2
+//@    && result0.RemoteRandom[0] == byte(uint32(retInt("Time.Unix", 0)) >> 24) && result0.RemoteRandom[1] == byte(uint32(retInt("Time.Unix", 0)) >> 16)
+//@    && result0.RemoteRandom[2] == byte(uint32(retInt("Time.Unix", 0)) >> 8) && result0.RemoteRandom[3] == byte(uint32(retInt("Time.Unix", 0)))
+//@ ensures f-CipherSuiteID: result1 == nil ==> result0.CipherSuiteID == uint16(s.CipherSuiteID)
+//@ ensures f-MasterSecret: result1 == nil ==> bytesEq(result0.MasterSecret, s.masterSecret)
+//@ ensures f-SequenceNumber: result1 == nil ==> result0.SequenceNumber == s.sequenceNumber
+//@ ensures f-SRTPProtectionProfile: result1 == nil ==> result0.SRTPProtectionProfile == uint16(s.srtpProtectionProfile)
+//@ ensures f-PeerSRTPMKI: result1 == nil ==> bytesEq(result0.PeerSRTPMKI, s.peerSRTPMKI)
+//@ ensures f-PeerCertificates: result1 == nil ==> sameSlice(result0.PeerCertificates, s.PeerCertificates)
+//@ ensures f-IdentityHint: result1 == nil ==> bytesEq(result0.IdentityHint, s.IdentityHint)
+//@ ensures f-SessionID: result1 == nil ==> bytesEq(result0.SessionID, s.SessionID)
+//@ ensures f-LocalConnectionID: result1 == nil ==> bytesEq(result0.LocalConnectionID, s.localConnectionID)
+//@ ensures f-RemoteConnectionID: result1 == nil ==> bytesEq(result0.RemoteConnectionID, s.remoteConnectionID)
+//@ ensures f-RRCNegotiated: result1 == nil ==> result0.RRCNegotiated == s.rrcNegotiated
+//@ ensures f-IsClient: result1 == nil ==> result0.IsClient == s.isClient
+//@ ensures f-NegotiatedProtocol: result1 == nil ==> result0.NegotiatedProtocol == s.NegotiatedProtocol
+//@ ensures source-unchanged: s.sequenceNumber == old(s.sequenceNumber) && s.localEpoch == old(s.localEpoch) && s.remoteEpoch == old(s.remoteEpoch)
+//@    && sameSlice(s.masterSecret, old(s.masterSecret)) && s.CipherSuiteID == old(s.CipherSuiteID)
+//@ end
+
+//@ func State.deserialize
+//@ watch time.Unix
+//@ ensures f-version: !VZERO(serialized.Version) ==> s.version.Major == serialized.Version.Major && s.version.Minor == serialized.Version.Minor
+//@ ensures f-version-default: VZERO(serialized.Version) ==> V12(s.version)
+//@ ensures f-localEpoch: s.localEpoch == serialized.LocalEpoch
+//@ ensures f-remoteEpoch: s.remoteEpoch == serialized.RemoteEpoch
+//@ ensures f-localRandom: forall(0, 28, func(i int) bool { return s.localRandom.RandomBytes[i] == serialized.LocalRandom[4+i] })
+//@ ensures f-remoteRandom: forall(0, 28, func(i int) bool { return s.remoteRandom.RandomBytes[i] == serialized.RemoteRandom[4+i] })
+//@ ensures f-remoteRandom-time: ncalls("time.Unix") == 2 && s.remoteRandom.GMTUnixTime == retAs("time.Unix", 0, s.remoteRandom.GMTUnixTime)
+//@    && argInt("time.Unix", 0) == int(uint32(serialized.RemoteRandom[0])<<24 | uint32(serialized.RemoteRandom[1])<<16 | uint32(serialized.RemoteRandom[2])<<8 | uint32(serialized.RemoteRandom[3]))
+//@ ensures f-masterSecret: bytesEq(s.masterSecret, serialized.MasterSecret)
+//@ ensures f-sequenceNumber: s.sequenceNumber == serialized.SequenceNumber
+//@ ensures f-srtpProtectionProfile: uint16(s.srtpProtectionProfile) == serialized.SRTPProtectionProfile
+//@ ensures f-peerSRTPMKI: bytesEq(s.peerSRTPMKI, serialized.PeerSRTPMKI)
+//@ ensures f-localConnectionID: bytesEq(s.localConnectionID, serialized.LocalConnectionID)
+//@ ensures f-remoteConnectionID: bytesEq(s.remoteConnectionID, serialized.RemoteConnectionID)
+//@ ensures f-rrcNegotiated: s.rrcNegotiated == serialized.RRCNegotiated
+//@ ensures f-isClient: s.isClient == serialized.IsClient
+//@ ensures f-CipherSuiteID: uint16(s.CipherSuiteID) == serialized.CipherSuiteID
+//@ ensures f-PeerCertificates: sameSlice(s.PeerCertificates, serialized.PeerCertificates)
+//@ ensures f-IdentityHint: bytesEq(s.IdentityHint, serialized.IdentityHint)
+//@ ensures f-SessionID: bytesEq(s.SessionID, serialized.SessionID)
+//@ ensures f-NegotiatedProtocol: s.NegotiatedProtocol == serialized.NegotiatedProtocol
+//@ end
+
+// generateState: snapshot of the DTLS 1.2 connection state. The record sequence number that is
+// exported is the local counter of the *current local epoch* (the next number to use), so that
+// the resumed connection continues without reusing a number.
+
+//@ define IS(x) x.Common
+//@ define IVER(x) x.Common.LocalVersion
+
+//@ func generateState
+//@ watch CipherSuite.ID
+//@ requires args: internalState != nil && internalState.Common != nil
+//@ requires seq-allocated: int(internalState.Common.LocalEpoch()) < len(internalState.Common.LocalSequenceNumber)
+//@ ensures no-suite: isNil(IS(internalState).CipherSuite) ==> result0 == nil && result1 != nil
+//@ ensures dtls13-refused: !isNil(IS(internalState).CipherSuite) && V13(IVER(internalState)) ==> result0 == nil && sameRef(result1, ErrStateSerializationUnsupported)
+//@ ensures otherwise-ok: !isNil(IS(internalState).CipherSuite) && !V13(IVER(internalState)) ==> result0 != nil && result1 == nil
+//@ ensures f-sequenceNumber: result1 == nil ==> result0.sequenceNumber == IS(internalState).LocalSequenceNumber[IS(internalState).LocalEpoch()]
+//@ ensures f-localEpoch: result1 == nil ==> result0.localEpoch == IS(internalState).LocalEpoch()
+//@ ensures f-remoteEpoch: result1 == nil ==> result0.remoteEpoch == IS(internalState).RemoteEpoch()
+//@ ensures f-localRandom: result1 == nil ==> forall(0, 28, func(i int) bool { return result0.localRandom.RandomBytes[i] == IS(internalState).LocalRandom.RandomBytes[i] })
+//@ ensures f-localRandom-time: result1 == nil ==> result0.localRandom.GMTUnixTime == IS(internalState).LocalRandom.GMTUnixTime
+//@ ensures f-remoteRandom: result1 == nil ==> forall(0, 28, func(i int) bool { return result0.remoteRandom.RandomBytes[i] == IS(internalState).RemoteRandom.RandomBytes[i] })
+//@ ensures f-remoteRandom-time: result1 == nil ==> result0.remoteRandom.GMTUnixTime == IS(internalState).RemoteRandom.GMTUnixTime
+//@ ensures f-masterSecret: result1 == nil ==> bytesEq(result0.masterSecret, internalState.MasterSecret)
+//@ ensures f-srtpProtectionProfile: result1 == nil ==> result0.srtpProtectionProfile == IS(internalState).SRTPProtectionProfile()
+//@ ensures f-peerSRTPMKI: result1 == nil && result0.srtpProtectionProfile != 0 ==> bytesEq(result0.peerSRTPMKI, IS(internalState).RemoteSRTPMasterKeyIdentifier)
+//@ ensures f-peerSRTPMKI-none: result1 == nil && result0.srtpProtectionProfile == 0 ==> len(result0.peerSRTPMKI) == 0
+//@ ensures f-localConnectionID: result1 == nil ==> bytesEq(result0.localConnectionID, IS(internalState).LocalConnectionID())
+//@ ensures f-remoteConnectionID: result1 == nil ==> bytesEq(result0.remoteConnectionID, IS(internalState).RemoteConnectionID)
+//@ ensures f-rrcNegotiated: result1 == nil ==> result0.rrcNegotiated == IS(internalState).RRCNegotiated
+//@ ensures f-isClient: result1 == nil ==> result0.isClient == IS(internalState).IsClient
+//@ ensures f-version: result1 == nil ==> V12(result0.version)
+//@ ensures f-CipherSuiteID: result1 == nil ==> called("CipherSuite.ID") && result0.CipherSuiteID == retAs("CipherSuite.ID", 0, result0.CipherSuiteID)
+//@    && sameRef(argAs("CipherSuite.ID", 0, IS(internalState).CipherSuite), IS(internalState).CipherSuite)
+//@ ensures f-PeerCertificates: result1 == nil ==> sameSlice(result0.PeerCertificates, IS(internalState).PeerCertificates)
+//@ ensures f-IdentityHint: result1 == nil ==> bytesEq(result0.IdentityHint, IS(internalState).IdentityHint)
+//@ ensures f-SessionID: result1 == nil ==> bytesEq(result0.SessionID, IS(internalState).SessionID)
+//@ ensures f-NegotiatedProtocol: result1 == nil ==> result0.NegotiatedProtocol == IS(internalState).NegotiatedProtocol
+//@ ensures source-unchanged: IS(internalState).LocalEpoch() == old(IS(internalState).LocalEpoch())
+//@    && IS(internalState).LocalSequenceNumber[IS(internalState).LocalEpoch()] == old(IS(internalState).LocalSequenceNumber[IS(internalState).LocalEpoch()])
+//@ end
+
+// generateInternalState: inverse expansion. The per-epoch counter slice receives the exported
+// sequence number at index localEpoch (all lower epochs start at zero); arbitrary serialized
+// values (any epoch, any lengths) must not panic (implicit obligations of the append loop / index).
+
+//@ define RS(x) x.Common
+
+//@ func State.generateInternalState
+//@ watch ciphersuite.ForID State12.InitCipherSuite Common.SetLocalEpoch Common.SetRemoteEpoch Common.SetSRTPProtectionProfile Common.SetLocalConnectionID atomic.StoreUint64 bytes.Clone
+//@ ensures unset-suite: old(s.CipherSuiteID) == 0 ==> result0 == nil && result1 != nil
+//@ ensures dtls13-refused: old(s.CipherSuiteID) != 0 && V13(old(s.version)) ==> result0 == nil && sameRef(result1, ErrStateSerializationUnsupported)
+//@ ensures ok-shape: result1 == nil ==> result0 != nil && RS(result0) != nil
+//@ ensures error-no-state: result1 != nil ==> result0 == nil
+//@ ensures init-ok: result1 == nil ==> called("State12.InitCipherSuite") && retErr("State12.InitCipherSuite", 0) == nil
+//@    && argAs("State12.InitCipherSuite", 0, result0) == result0
+// InitCipherSuite is the last step and is summarised by a type-wide write set (typed atomics, uint64
+// and byte element heaps: engine limit, reported). Fields living in those heaps are therefore stated
+// through the call events of the setters that ran before it; all other fields directly.
+//@ ensures g-localEpoch: result1 == nil ==> ncalls("Common.SetLocalEpoch") == 1 && argAs("Common.SetLocalEpoch", 0, RS(result0)) == RS(result0)
+//@    && argAs("Common.SetLocalEpoch", 1, s.localEpoch) == s.localEpoch
+//@ ensures g-remoteEpoch: result1 == nil ==> ncalls("Common.SetRemoteEpoch") == 1 && argAs("Common.SetRemoteEpoch", 0, RS(result0)) == RS(result0)
+//@    && argAs("Common.SetRemoteEpoch", 1, s.remoteEpoch) == s.remoteEpoch
+//@ ensures g-sequenceNumber: result1 == nil ==> int(s.localEpoch) < len(RS(result0).LocalSequenceNumber) && ncalls("atomic.StoreUint64") == 1
+//@    && argAs("atomic.StoreUint64", 0, &s.sequenceNumber) == &RS(result0).LocalSequenceNumber[s.localEpoch] && argU64("atomic.StoreUint64", 1) == s.sequenceNumber
+//@ ensures g-sequence-slice-exact: result1 == nil ==> len(RS(result0).LocalSequenceNumber) == int(s.localEpoch) + 1
+//@ ensures g-localRandom-time: result1 == nil ==> RS(result0).LocalRandom.GMTUnixTime == s.localRandom.GMTUnixTime
+//@ ensures g-remoteRandom-time: result1 == nil ==> RS(result0).RemoteRandom.GMTUnixTime == s.remoteRandom.GMTUnixTime
+//@ ensures g-masterSecret: result1 == nil ==> sameSlice(result0.MasterSecret, s.masterSecret)
+//@ ensures g-cipherSuite: result1 == nil ==> called("ciphersuite.ForID") && argAs("ciphersuite.ForID", 0, s.CipherSuiteID) == s.CipherSuiteID
+//@    && sameRef(RS(result0).CipherSuite, retAs("ciphersuite.ForID", 0, RS(result0).CipherSuite))
+//@ ensures g-srtpProtectionProfile: result1 == nil ==> ncalls("Common.SetSRTPProtectionProfile") == 1
+//@    && argAs("Common.SetSRTPProtectionProfile", 0, RS(result0)) == RS(result0) && argAs("Common.SetSRTPProtectionProfile", 1, s.srtpProtectionProfile) == s.srtpProtectionProfile
+//@ ensures g-peerSRTPMKI: result1 == nil ==> sameSlice(argBytes("bytes.Clone", 0), s.peerSRTPMKI) && sameSlice(RS(result0).RemoteSRTPMasterKeyIdentifier, retBytes("bytes.Clone", 0))
+//@ ensures g-localConnectionID: result1 == nil ==> ncalls("Common.SetLocalConnectionID") == 1
+//@    && argAs("Common.SetLocalConnectionID", 0, RS(result0)) == RS(result0) && sameSlice(argBytes("Common.SetLocalConnectionID", 1), s.localConnectionID)
+//@ ensures g-remoteConnectionID: result1 == nil ==> sameSlice(RS(result0).RemoteConnectionID, s.remoteConnectionID)
+//@ ensures g-rrcNegotiated: result1 == nil ==> RS(result0).RRCNegotiated == s.rrcNegotiated
+//@ ensures g-isClient: result1 == nil ==> RS(result0).IsClient == s.isClient
+//@ ensures g-version12: result1 == nil ==> V12(RS(result0).LocalVersion)
+//@ ensures g-PeerCertificates: result1 == nil ==> sameSlice(RS(result0).PeerCertificates, s.PeerCertificates)
+//@ ensures g-IdentityHint: result1 == nil ==> sameSlice(RS(result0).IdentityHint, s.IdentityHint)
+//@ ensures g-SessionID: result1 == nil ==> sameSlice(RS(result0).SessionID, s.SessionID)
+//@ ensures g-NegotiatedProtocol: result1 == nil ==> RS(result0).NegotiatedProtocol == s.NegotiatedProtocol
+//@ ensures source-unchanged: s.sequenceNumber == old(s.sequenceNumber) && s.localEpoch == old(s.localEpoch)
+//@ loop #1: bounded: len(RS(state).LocalSequenceNumber) <= int(s.localEpoch) + 1
+//@ loop #1: kept: state != nil && RS(state) != nil && s.localEpoch == old(s.localEpoch) && s.sequenceNumber == old(s.sequenceNumber)
+//@ end
